@@ -29,6 +29,8 @@ def spec_fields(names, fsel):
         if fsel.step is not None and fsel.step < 1:
             return None
         return (list(range(*fsel.indices(nf))), False)
+    if isinstance(fsel, np.ndarray) and fsel.ndim == 1 and fsel.dtype.kind in "iu":
+        fsel = [int(x) for x in fsel]
     if isinstance(fsel, list):
         if not fsel:
             return None
@@ -216,6 +218,8 @@ def run_iter_scenario(p, wd):
         if nf >= 3:
             fsels += [[0, nf - 1], slice(1, 3), [1, 2]]
         fsels = fsels[:4] + rng.sample(fsels[4:], min(3, len(fsels) - 4))
+        # negative indices (normalised by the selector before they reach the file scanners)
+        fsels += [-1, [-1]] + ([[0, -1], np.array([-2, -1])] if nf >= 2 else [])
     path = os.path.join(wd, "plt")
     gen.write_plotfile(path, pf)
     pck = PlotfileCooker(path)
@@ -281,9 +285,14 @@ def run_point_scenario(p, wd):
     def payload(lv, b, lo, hi, X, Y, Z, c):
         r = np.random.default_rng(p["seed"] * 7919 + lv * 101 + b * 13 + c)
         return 1.0 + c + r.uniform(0.0, 1.0, size=X.shape)
-    pf = gen.make_pf(ndims=3, names=names, n0=tuple(p.get("n0", (16, 16, 16))), geo_lo=tuple(p.get("geo_lo", (1., 2., 3.))),
-                     dx0=tuple(p.get("dx0", (0.1, 0.2, 0.4))), nlevels=p["nlevels"], nfiles=p["nfiles"],
-                     layout=p["layout"], seed=p["seed"], box=8, payload=payload)
+    if p.get("levels"):
+        pf = gen.make_pf(ndims=3, names=names, n0=tuple(p["n0"]), geo_lo=tuple(p.get("geo_lo", (1., 2., 3.))),
+                         dx0=tuple(p.get("dx0", (0.1, 0.2, 0.4))), levels=[[(tuple(a), tuple(b)) for a, b in lv] for lv in p["levels"]],
+                         nfiles=p["nfiles"], layout=p["layout"], seed=p["seed"], payload=payload)
+    else:
+        pf = gen.make_pf(ndims=3, names=names, n0=tuple(p.get("n0", (16, 16, 16))), geo_lo=tuple(p.get("geo_lo", (1., 2., 3.))),
+                         dx0=tuple(p.get("dx0", (0.1, 0.2, 0.4))), nlevels=p["nlevels"], nfiles=p["nfiles"],
+                         layout=p["layout"], seed=p["seed"], box=8, payload=payload)
     path = os.path.join(wd, "plt")
     gen.write_plotfile(path, pf)
     pck = PlotfileCooker(path)
@@ -303,15 +312,37 @@ def run_point_scenario(p, wd):
         return m
     npts = p.get("npoints", 12)
     tries = 0
-    while counter[0] < npts and tries < 2000:
+    # targeted cells: interior cells of a fine box that touch a face of a COARSER-level box running through the fine box
+    # (the query must still be answered from the fine box)
+    targeted = []
+    for lv in range(1, pf.L + 1):
+        for b, (lo, hi) in enumerate(pf.levels[lv]):
+            shape = [h - l + 1 for l, h in zip(lo, hi)]
+            if min(shape) < 3:
+                continue
+            for d in range(3):
+                faces = {2 * (chi[d] + 1) for clo, chi in pf.levels[lv - 1]} | {2 * clo[d] for clo, chi in pf.levels[lv - 1]}
+                for f in sorted(faces):
+                    for c in (f - 1, f):
+                        if lo[d] + 1 <= c <= hi[d] - 1:
+                            cell = [rng.randrange(1, s - 1) for s in shape]
+                            cell[d] = c - lo[d]
+                            targeted.append((lv, b, cell))
+    rng.shuffle(targeted)
+    targeted = targeted[: max(4, npts // 2)]
+    while counter[0] < npts + len(targeted) and tries < 2000:
         tries += 1
-        lv = rng.randrange(pf.L + 1)
-        b = rng.randrange(pf.nboxes(lv))
-        lo, hi = pf.levels[lv][b]
-        shape = [h - l + 1 for l, h in zip(lo, hi)]
-        if min(shape) < 3:
-            continue
-        cell = [rng.randrange(1, s - 1) for s in shape]
+        if targeted:
+            lv, b, cell = targeted.pop()
+            lo, hi = pf.levels[lv][b]
+        else:
+            lv = rng.randrange(pf.L + 1)
+            b = rng.randrange(pf.nboxes(lv))
+            lo, hi = pf.levels[lv][b]
+            shape = [h - l + 1 for l, h in zip(lo, hi)]
+            if min(shape) < 3:
+                continue
+            cell = [rng.randrange(1, s - 1) for s in shape]
         if covered(lv, b)[tuple(cell)]:
             continue
         dx = pf.dx(lv)
